@@ -1,4 +1,7 @@
+#[cfg(not(goml_verif))]
 use std::collections::HashMap;
+#[cfg(goml_verif)]
+use crate::verif_hash::HashMap;
 use std::path::Path;
 
 use ast::ast;
